@@ -605,11 +605,26 @@ def mutate_case(R, r, t, d, e, obj, view, cls, cache, buf, ops, exp, cctx, sx):
     if not allp:
         return
     cur_e = e
-    for _ in range(r.randrange(1, 5)):
+    kept = {}                       # nested container handles obtained once and reused (also across buffer growth)
+    for _ in range(r.randrange(1, 7)):
         path, st, sub = r.choice(allp)
-        kind = r.choice(["get", "badidx", "set", "set", "setmisfit", "badlen"])
+        kind = r.choice(["get", "badidx", "set", "set", "set", "setmisfit", "badlen", "grow"])
         h = r.choice([obj, view])
         hname = "handle" if h is obj else "view"
+        if kind == "grow":
+            # an allocation that forces the buffer to grow (storage is relocated); handles and views stay in use afterwards
+            n = buf.capacity + r.choice([1, 8, 64])
+            o = buf.allocate(n)
+            ops.append(f"alloc {n}")
+            exp.append(f"off {o}")
+            R.tags["op.grow"] += 1
+            try:
+                now = deep_str(t, obj, cache)
+                if now != expect_str(t, cur_e, cache):
+                    R.fail("C10:value-changed-by-growth", f"{sx[:200]}: after the buffer grew the object reads {now[:140]}", cctx)
+            except Exception as ex:
+                R.fail("C10:read-after-growth-raises", f"{sx[:200]}: {type(ex).__name__} {str(ex)[:100]}", cctx)
+            continue
         if kind == "get":
             try:
                 val = "val " + deep_str(st, nav(h, path), cache)
@@ -678,12 +693,34 @@ def mutate_case(R, r, t, d, e, obj, view, cls, cache, buf, ops, exp, cctx, sx):
             vs2, arg2 = vsexp(st, nd_, cache, "py")
             before = image(buf)
             cap_b = buf.capacity
+            slot_ext = None
+            if st[0] == "string":
+                try:
+                    cont = nav(obj, path[:-1])
+                    s_ = path[-1]
+                    a0 = int(getattr(type(cont), s_[1]).get_offset(cont)[1]) if s_[0] == "f" else int(cont._get_offset(s_[1] if len(s_[1]) > 1 else s_[1][0]))
+                    slot_ext = (a0, a0 + int.from_bytes(before[a0:a0 + 8], "little"))
+                except Exception:
+                    slot_ext = None
             try:
                 old = deep_str(t, obj, cache)
             except Exception:
                 old = None
             try:
-                nav_set(h, path, arg2)
+                if kind == "set" and len(path) > 1 and r.random() < 0.6:
+                    # through a nested container handle that was obtained earlier (possibly before the buffer grew)
+                    key = (hname, path[:-1])
+                    if key not in kept:
+                        kept[key] = nav(h, path[:-1])
+                    cont = kept[key]
+                    s_ = path[-1]
+                    if s_[0] == "f":
+                        setattr(cont, s_[1], arg2)
+                    else:
+                        cont[s_[1] if len(s_[1]) > 1 else s_[1][0]] = arg2
+                    hname += " (kept nested handle)"
+                else:
+                    nav_set(h, path, arg2)
                 res = "ok"
             except Exception as ex:
                 res = "err " + exc_name(ex)
@@ -714,6 +751,11 @@ def mutate_case(R, r, t, d, e, obj, view, cls, cache, buf, ops, exp, cctx, sx):
                         break
                 lo, hi = int(obj._offset), int(obj._offset) + int(obj._get_size() if hasattr(obj, "_get_size") else cls._size)
                 refs = "(ref " in sx or "(uref " in sx
+                if st[0] == "string" and slot_ext is not None:
+                    a0, a1 = slot_ext
+                    ch = [i for i in range(min(len(before), len(after))) if before[i] != after[i] and not a0 <= i < a1]
+                    if ch:
+                        R.fail("C11:overrun-accepted", f"{sx[:200]}: assigning {repr(nd_)[:60]} to the string at {pstr(path)} (space fixed at creation [{a0},{a1})) was accepted and changed bytes {ch[:8]} beyond it", c2)
                 if not refs:
                     ch = [i for i in range(min(len(before), len(after))) if before[i] != after[i] and not lo <= i < hi]
                     if ch:
@@ -722,13 +764,15 @@ def mutate_case(R, r, t, d, e, obj, view, cls, cache, buf, ops, exp, cctx, sx):
             else:
                 if after != before or buf.capacity != cap_b:
                     ch = [i for i in range(min(len(before), len(after))) if before[i] != after[i]]
-                    what = {"struct": "struct-dict", "array": "array-value"}.get(st[0], st[0])
+                    what = {"struct": "struct-update", "array": "array-value"}.get(st[0], st[0])
                     R.fail("C11:error-with-side-effect:" + what, f"{sx[:200]}: assigning {repr(nd_)[:100]} to {pstr(path)} through the {hname} raised {res} but changed bytes {ch[:8]}", c2)
                     break
                 if old is not None and now != old:
                     R.fail("C11:error-with-side-effect", f"{sx[:200]}: refused assignment changed the value", c2)
             ops.append("deep h -")
             exp.append("val " + now if not now.startswith("EXC") else None)
+            if st[0] == "scalar" and res == "ok" and not now.startswith("EXC"):
+                continue        # no structural change: keep mutating (through the same handles)
             # paths may be stale after a structural change: stop mutating this object
             break
 
@@ -767,7 +811,7 @@ def run_fixed(R, t, d, e, path, new_d, name):
     exp.append(f"{res} cap {buf.capacity} mem {after.hex()}")
     if res != "ok" and after != before:
         ch = [i for i in range(len(before)) if before[i] != after[i]]
-        what = {"struct": "struct-dict", "array": "array-value"}.get(st[0], st[0])
+        what = {"struct": "struct-update", "array": "array-value"}.get(st[0], st[0])
         R.fail("C11:error-with-side-effect:" + what, f"{sx[:200]}: assigning {repr(new_d)[:120]} to {pstr(path)} raised {res} but changed bytes {ch[:8]}", cctx)
     R.tags["corpus." + name] += 1
     R.lines += ops
